@@ -1410,11 +1410,18 @@ theorem C16_bootstrap_tie :
           (Term.a3 "select" (.var 0) (.var 2) (.var 3)) ] :=
   bootstrap_tie
 
+/-- split into (head, body goals) these are the clause lists the theorems below are about -/
+theorem C16_clause_pairs :
+    (bootClauses "member" 2).map clauseParts = memberClauses ∧
+    (bootClauses "select" 3).map clauseParts = selectClauses ∧
+    appendClauses.map clauseParts = appendClausePairs :=
+  clause_pairs
+
 /-- each of these clauses (and the two clauses quoted in `appendLists`) is valid for the specified
     relations: this is what makes every SLD answer a tuple of the relation -/
 theorem C16_clauses_valid :
-    (∀ c ∈ bootClauses "member" 2, ClauseValid Meaning c) ∧ (∀ c ∈ bootClauses "select" 3, ClauseValid Meaning c) ∧
-    (∀ c ∈ appendClauses, ClauseValid Meaning c) :=
+    (∀ c ∈ memberClauses, ClauseValid Meaning c) ∧ (∀ c ∈ selectClauses, ClauseValid Meaning c) ∧
+    (∀ c ∈ appendClausePairs, ClauseValid Meaning c) :=
   ⟨member_clauses_valid, select_clauses_valid, append_clauses_valid⟩
 
 /-- member/2, all arguments arbitrary terms (partial lists, non-ground elements included): every
@@ -1422,9 +1429,10 @@ theorem C16_clauses_valid :
 theorem C16_member_sound {fuel : Nat} {x l : Term} {ans : Answers} (h : Rel.member fuel x l = .ok ans) :
     ∀ t ∈ ans, memberT t ∧ IsInstance [x, l] t := by
   unfold Rel.member at h
+  rw [clause_pairs.1] at h
   cases h
   intro t ht
-  obtain ⟨Δ, rfl, hΔ⟩ := sld_sound member_clauses_valid _ _ _ _ t ht
+  obtain ⟨Δ, rfl, hΔ⟩ := sld_sound member_clauses_valid _ _ _ t ht
   have := hΔ _ (List.mem_singleton.mpr rfl)
   simp only [Term.a2, substT, substA, Meaning] at this
   exact ⟨this, ⟨Δ, rfl⟩⟩
@@ -1433,9 +1441,10 @@ theorem C16_member_sound {fuel : Nat} {x l : Term} {ans : Answers} (h : Rel.memb
 theorem C16_select_sound {fuel : Nat} {e l r : Term} {ans : Answers} (h : Rel.select fuel e l r = .ok ans) :
     ∀ t ∈ ans, selectT t ∧ IsInstance [e, l, r] t := by
   unfold Rel.select at h
+  rw [clause_pairs.2.1] at h
   cases h
   intro t ht
-  obtain ⟨Δ, rfl, hΔ⟩ := sld_sound select_clauses_valid _ _ _ _ t ht
+  obtain ⟨Δ, rfl, hΔ⟩ := sld_sound select_clauses_valid _ _ _ t ht
   have := hΔ _ (List.mem_singleton.mpr rfl)
   simp only [Term.a3, substT, substA, Meaning] at this
   exact ⟨this, ⟨Δ, rfl⟩⟩
@@ -1472,9 +1481,10 @@ theorem C16_append_sound {fuel : Nat} {xs ys zs : Term} {ans : Answers} (h : Rel
       simp only
       rw [hs, substT_list]
     · cases ht
-  · cases h
+  · rw [clause_pairs.2.2] at h
+    cases h
     intro t ht
-    obtain ⟨Δ, rfl, hΔ⟩ := sld_sound append_clauses_valid _ _ _ _ t ht
+    obtain ⟨Δ, rfl, hΔ⟩ := sld_sound append_clauses_valid _ _ _ t ht
     have := hΔ _ (List.mem_singleton.mpr rfl)
     simp only [Term.a3, substT, substA, Meaning] at this
     exact ⟨this, ⟨Δ, rfl⟩⟩
